@@ -43,6 +43,13 @@ def cases(tier, seed):
                 cs.append({'scen': 'copies', 's': dict(s, op='to_other', to='complex128')})
             if dt == 'float32':
                 cs.append({'scen': 'copies', 's': dict(s, op='to_other', to='float64')})
+    # objects whose cores are views of one storage
+    for al in (2, 3):
+        for op in ('clone', 'detach', 'cpu', 'to_same', 'numpy', 'to_other'):
+            sd = {'N': [2] * al, 'M': [2] * al, 'R': [1] * (al + 1), 'dtype': 'float64', 'op': op, 'aliased': al}
+            if op == 'to_other':
+                sd['to'] = 'float32'
+            cs.append({'scen': 'copies', 's': sd})
     # objects produced by TT-SVD / rounding (rank list may hold numpy integers)
     for shp in ([2, 2], [2, 3], [2, 2, 2], [3, 2, 2]) + (([2, 2, 2, 2],) if th else ()):
         for pat in gen_patterns(shp, 3, rng, 3 if not th else 6):
